@@ -161,9 +161,10 @@ def run(chk: core.Check, tier: str, seed: int) -> None:
     patterns += ["[\\].]", "[\\]a-c.]+", "[.\\]]", "[\\[.]", "[\\\\.]", "[\\].][.]", "[^\\].]", "[a\\]|.]"]
     # '.' after / between / before classes and groups: its meaning does not depend on what came earlier in the pattern
     dot_patterns = ["[ab].", "[^a].", "[a].[b]", "a[b]..", "(.[a]).", "[a]|.", ".[a].", "[a][b].", "[a]+.*", "([a]|b).", "[\\]].", "[a-c]{2}.", "\\p{L}.",
-                    "[.].", "a.", "(a).", "a|[b]."]
+                    "[.].", "a.", "(a).", "a|[b].", "\\..", "a\\-.", "\\[.", "(\\.).", "\\.|a.", "a\\..b", "\\n.", ".\\.", "\\(.\\)"]
     for dp in dot_patterns:
-        directed.setdefault(dp, []).extend(["a\r", "b\n", "a\rb", "ab\r", "ba\r\r", "a\u2028", "]\r", "aa\r", ".\r", "b\r"])
+        directed.setdefault(dp, []).extend(["a\r", "b\n", "a\rb", "ab\r", "ba\r\r", "a\u2028", "]\r", "aa\r", ".\r", "b\r", "a-\r", "[\r", "a.\rb",
+                                            "\n\r", "(\r)", "\r."])
     patterns += dot_patterns
     recs = []
     for p in patterns:
@@ -171,9 +172,11 @@ def run(chk: core.Check, tier: str, seed: int) -> None:
             subs = rng.sample(short_subjects, 9) + [rand_subject(rng) for _ in range(5)]
         else:
             subs = short_subjects + [rand_subject(rng) for _ in range(10)]
-        for ex in directed.get(p, []):
-            # subjects built alongside the pattern: the example, and the example with something around it
-            subs = [ex, "q" + ex, ex + "\n", ex[:-1], ex + ex] + subs[:8]
+        exs = directed.get(p, [])
+        if exs:
+            # subjects built alongside the pattern: every example, and the last one with something around it
+            ex = exs[-1]
+            subs = list(dict.fromkeys(exs[:12] + [ex, "q" + ex, ex + "\n", ex[:-1], ex + ex])) + subs[:8]
         subs = subs + [1, None, True, ["a"], {"a": "a"}]
         doc = {"s": subs, "p": p}
         try:
